@@ -43,6 +43,7 @@ def run(ctx: Ctx) -> None:
     tableau.rule_measure_rowset(ctx)
     tableau.rule_measure_indices(ctx)
     tableau.rule_insert_layout(ctx)
+    tableau.rule_tensor_layout(ctx)
     from .c01 import rule_determinism_map
     rule_determinism_map(ctx)
     tableau.rule_outcome_used(ctx)
@@ -80,6 +81,8 @@ def rule_wrappers(ctx: Ctx) -> None:
 
 
 KNOCKOUTS = [
+    Knockout("tensor-phase-halves-not-interleaved", CLIFF, sub_once("            (phase_list1[0], phase_list2[0], phase_list1[1], phase_list2[1])", "            (phase_list1[0], phase_list1[1], phase_list2[0], phase_list2[1])"), "tensor.layout", "phase vector"),
+    Knockout("tensor-block-from-other-block", CLIFF, sub_once("        stabilizer_x = block_diag(tableau.stabilizer_x, tab.stabilizer_x)", "        stabilizer_x = block_diag(tableau.stabilizer_x, tab.stabilizer_z)"), "tensor.layout", "same* block"),
     Knockout("insert-qubit-stabilizer-x-instead-of-z", CLIFF, sub_once("    tableau.stabilizer_z[new_position, new_position] = 1\n", "    tableau.stabilizer_x[new_position, new_position] = 1\n"), "insert.layout", "destabilizer X"),
     Knockout("insert-qubit-row-length", CLIFF, sub_once("    new_row = np.zeros(n_qubits + 1)\n", "    new_row = np.zeros(n_qubits)\n"), "insert.layout", "zero entries"),
     Knockout("insert-qubit-blocks-transposed", CLIFF, sub_once("    new_table = np.block([[tmp_dex, tmp_dez], [tmp_sx, tmp_sz]])", "    new_table = np.block([[tmp_dex, tmp_sx], [tmp_dez, tmp_sz]])"), "insert.layout", "assembled"),
